@@ -212,9 +212,10 @@ func (c *Check) keyGrammar(prefix string, families map[string]bool) {
 			for _, a := range as {
 				c.assume(a)
 			}
-			c.req(reason == "", prefix+".K2", name, b.Fn.Body.Pos(), "record key "+b.Shape.String()+condStr(reason != "", ": "+reason)+condStr(len(as) > 0, " under "+strings.Join(as, ",")))
+			_ = name
+			c.req(reason == "", prefix+".K2", "key:"+b.Shape.kinds(), b.Fn.Body.Pos(), b.Name+": record key "+b.Shape.String()+condStr(reason != "", ": "+reason)+condStr(len(as) > 0, " under "+strings.Join(as, ",")))
 			// K5
-			c.req(len(b.Unused) == 0, prefix+".K5", name, b.Fn.Body.Pos(), condStr(len(b.Unused) > 0, "parameters ignored by the key: "+strings.Join(b.Unused, ","))+condStr(len(b.Unused) == 0, "all parameters occur in the key"))
+			c.req(len(b.Unused) == 0, prefix+".K5", "key:"+b.Shape.kinds(), b.Fn.Body.Pos(), b.Name+": "+condStr(len(b.Unused) > 0, "parameters ignored by the key: "+strings.Join(b.Unused, ","))+condStr(len(b.Unused) == 0, "all parameters occur in the key"))
 		}
 		// K6
 		c.req(len(point[fam]) == 1, prefix+".K6", "family:"+fam, token.NoPos, "point operations use builders "+strings.Join(sortedKeys(point[fam]), ","))
@@ -229,6 +230,11 @@ func (c *Check) keyGrammar(prefix string, families map[string]bool) {
 		}
 		nscan++
 		construct := "scan:" + e.Fn.Name
+		if b := kt.Builders[e.Builder]; b != nil {
+			construct = "scan:" + b.Shape.kinds() + ":" + c.scanClass(e.Fn, e.Family)
+		} else {
+			construct = "scan:" + e.Family + ":" + c.scanClass(e.Fn, e.Family) + ":" + e.Fn.Name
+		}
 		if e.Family == "?" {
 			continue // reported under K1
 		}
@@ -246,7 +252,7 @@ func (c *Check) keyGrammar(prefix string, families map[string]bool) {
 			for _, a := range as {
 				c.assume(a)
 			}
-			c.req(reason == "", prefix+".K3", construct, e.Pos, fmt.Sprintf("scan %s of %s", b.Shape, rb.Shape)+condStr(reason != "", ": "+reason)+condStr(len(as) > 0, " under "+strings.Join(as, ",")))
+			c.req(reason == "", prefix+".K3", construct, e.Pos, e.Fn.Name+": "+fmt.Sprintf("scan %s of %s", b.Shape, rb.Shape)+condStr(reason != "", ": "+reason)+condStr(len(as) > 0, " under "+strings.Join(as, ",")))
 		}
 	}
 	c.setInfo("scan_sites", nscan)
@@ -555,7 +561,7 @@ func (c *Check) requestIDLeads(fam string) string {
 			}
 			guarded := false
 			for _, gf := range e.Guards {
-				if !gf.Neg && gf.T.Op == "res" && (gf.T.ContainsOp("keeper.Keeper.GetRequest") || gf.T.ContainsOp("keeper.Keeper.GetCompactRequest")) && gf.T.Contains(id) {
+				if !gf.Neg && gf.T.Op == "res" && (gf.T.ContainsOp(nameOf(c.getterByType("Request"), "keeper.Keeper.GetRequest")) || gf.T.ContainsOp(nameOf(c.getterByType("CompactRequest"), "keeper.Keeper.GetCompactRequest"))) && gf.T.Contains(id) {
 					guarded = true
 				}
 			}
@@ -576,4 +582,39 @@ func (c *Check) requestIDLeads(fam string) string {
 		return "no writer of family " + fam + " found"
 	}
 	return ""
+}
+
+// kinds prints a shape without role names (rename-stable construct keys).
+func (sh Shape) kinds() string {
+	parts := make([]string, len(sh))
+	for i, s := range sh {
+		if s.Kind == "Const" {
+			parts[i] = fmt.Sprintf("0x%02x", s.Byte)
+		} else {
+			parts[i] = s.Kind
+		}
+	}
+	return strings.Join(parts, "·")
+}
+
+// scanClass: what the function containing a scan does with the scanned family.
+func (c *Check) scanClass(f *Func, fam string) string {
+	del, set := false, false
+	for _, e := range c.directEffectsDepth(f, 1) {
+		if e.Kind == "store" && e.Family == fam {
+			if e.Op == "Delete" {
+				del = true
+			}
+			if e.Op == "Set" {
+				set = true
+			}
+		}
+	}
+	switch {
+	case del:
+		return "delete"
+	case set:
+		return "write"
+	}
+	return "read"
 }
